@@ -181,6 +181,14 @@ func (d *director) build(st Step, n *chaingen.Node, base bool) []out {
 	case KGarbageRaw:
 		junk := make([]byte, 64+d.rng.Intn(64))
 		d.rng.Read(junk)
+		// The first 24 bytes are read as a message header. Its length field
+		// must not be a plausible one: with a length below the protocol
+		// maximum (32 MiB; 1 random draw in 128) and a foreign magic, btcd's
+		// reader DISCARDS that many following bytes of the stream before
+		// reporting the error, i.e. it silently swallows every later answer
+		// of this peer, which the oracle would then wrongly count as
+		// delivered (false alarm seen in the thorough tier, 1 of 2500).
+		junk[16], junk[17], junk[18], junk[19] = 0xff, 0xff, 0xff, 0xff
 		return []out{{raw: junk}}
 	case KGarbageBlock:
 		return []out{{blk: n.Block, enc: enc, cut: true}}
